@@ -17,8 +17,8 @@ from .. import guards as G
 from .. import instrs as I
 from ..model import AnalysisError, EnumMember, Unknown, dotted, eval_module_table, src
 
-TECHNIQUE = "AST table evaluation + ordering/exhaustiveness/control-dependence rules over the assembler (static analysis)"
-ENGINES = ["model", "instrs"]
+TECHNIQUE = "AST table evaluation + ordering/exhaustiveness/control-dependence rules over the assembler; abstract interpretation of small functions over an enumerated finite domain by the checker's own AST interpreter (static analysis)"
+ENGINES = ["model", "instrs", "circuit"]
 EXPLANATION = (
     "Over lang/parsing/text.py: the four assembler passes run in the order that keeps label numbering valid; the literal-exception "
     "table (rebuilt by evaluating the module-level loops) equals exactly the Immediate-typed operand positions of every instruction "
